@@ -1,12 +1,5 @@
 #include "stubs/recorder.h"
-unsigned g_ev_count;
-int g_ev_slot;
-uint64_t g_ev_arg;
-const unsigned char *g_ev_ptr;
-uint32_t g_ev_fbits;
-uint64_t g_ev_dbits;
-bool g_ev_bool;
-void *g_ev_ctx;
+struct verif_event_ghost g_ev;
 
 #define REC(slot, ctx) do { g_ev_count++; g_ev_slot = (slot); g_ev_ctx = (ctx); } while (0)
 void rec_uint8(void *c, uint8_t v) { REC(EV_UINT8, c); g_ev_arg = v; }
